@@ -267,6 +267,18 @@ fn expr_cols(e: &E, out: &mut Vec<usize>) {
                 expr_cols(x, out)
             }
         }
+        E::Case(x, arms, els) => {
+            if let Some(x) = x {
+                expr_cols(x, out)
+            }
+            for (c, r) in arms {
+                expr_cols(c, out);
+                expr_cols(r, out)
+            }
+            if let Some(e) = els {
+                expr_cols(e, out)
+            }
+        }
     }
 }
 
@@ -1143,6 +1155,8 @@ fn to_vexpr(e: &E) -> vp::VExpr {
         E::IsNull(n, a) => vp::VExpr::IsNull(*n, b(a)),
         E::Between(n, a, lo, hi) => vp::VExpr::Between(*n, b(a), b(lo), b(hi)),
         E::InList(n, a, xs) => vp::VExpr::InList(*n, b(a), xs.iter().map(to_vexpr).collect()),
+        // CASE is not part of the rule facade; the plan generators never produce it
+        E::Case(..) => vp::VExpr::Lit(vp::VLit::Null),
     }
 }
 
